@@ -806,6 +806,10 @@ class Built(object):
                     self._exec_step(x)
             except Exception as ex:
                 self.journal.add({'ev': 'caught', 'exc': ex})
+                if s.get('mutate_caught'):
+                    # the service annotates the exception it caught (retry bookkeeping and the like)
+                    from vlib.values import mutate_deep
+                    mutate_deep(ex)
             return None
         if op == 'return':
             return _Return(self._eval(s['expr']))
@@ -864,6 +868,10 @@ class Built(object):
                 v = getattr(self.inst, d['name'])(*args, **kwargs)
         except BaseException as ex:  # noqa
             ev['exc'] = ex
+            try:
+                ev['exc_state'] = (repr(getattr(ex, 'args', None)), repr(sorted((k, repr(v)) for k, v in vars(ex).items())))
+            except Exception:
+                ev['exc_state'] = None
             raise
         ev['ret'] = v
         ev['has_ret'] = True
